@@ -1563,6 +1563,19 @@ class Part2(report.Part):
 
 
 def _worker(args):
+    if args[0] == "refused-delivery":
+        # checks/c18eav.py: destination= monitors and the errors the bus builds for refused match-rule recipients
+        from checks import c18eav
+        _, seed, shard, count = args
+        part = report.Part()
+        b = build.build("asan", quiet=True)
+        base = tempfile.mkdtemp(prefix="verif-c18e-")
+        try:
+            for i in range(count):
+                c18eav.case(b, os.path.join(base, "c%d" % i), gen.rng_for(seed, PROP, "eav", shard, i), part, shard * 1000 + i)
+        finally:
+            shutil.rmtree(base, ignore_errors=True)
+        return part
     seed, shard, count = args
     part = report.Part()
     b = build.build("asan", quiet=True)
@@ -1585,6 +1598,15 @@ def run(tier, seed, replay=None, scale=1.0):
     r.builds.append(b.info())
     if replay:
         j = json.load(open(replay))
+        if j["witness"].get("part") == "refused-delivery":
+            from checks import c18eav
+            shard, i = divmod(j["witness"]["case"], 1000)
+            part = report.Part()
+            c18eav.case(b, tempfile.mkdtemp(prefix="verif-c18e-"), gen.rng_for(j["seed"], PROP, "eav", shard, i), part, j["witness"]["case"])
+            part.sig("replay", 0)
+            part.sig("replay", 1)
+            r.merge(part)
+            return r.finish()
         hid = j["witness"]["history"]
         shard, i = divmod(hid, 100000)
         part = report.Part()
@@ -1599,10 +1621,17 @@ def run(tier, seed, replay=None, scale=1.0):
         return r.finish()
     total = int((320 if tier == "quick" else 4000) * scale)
     per = max(1, total // 16)
-    for part in report.run_sharded(_worker, [(seed, i, per) for i in range(16)]):
+    neav = max(1, int((64 if tier == "quick" else 1600) * scale))
+    shards = [(seed, i, per) for i in range(16)] + [("refused-delivery", seed, i, max(1, neav // 8)) for i in range(8)]
+    for part in report.run_sharded(_worker, shards):
         r.merge(part)
     if scale >= 1:
         r.require("paired-runs-compared", 200)
+        r.require("refused-delivery:cases", 40)
+        r.require("refused-delivery:synthesized-errors-seen", 150)
+        r.require("refused-delivery:selective-messages-compared", 300)
+        r.require("refused-delivery:op:eavesdropped-unicast-signal", 30)
+        r.require("refused-delivery:op:refused-broadcast", 20)
         r.require("paired-runs-with-2-monitors", 40)
         r.require("paired-messages-compared", 20000)
         r.require("monitor-streams-judged", 200)
